@@ -213,12 +213,86 @@ func genLibTemplate(t *rapid.T) Case {
 	return cs
 }
 
+// genConstPairs builds a program that applies the same operator to a signed and
+// to an unsigned variable of one width, each against a constant, several times:
+//
+//	main(a intW, b uintW) (R, R, ...) { return a OP k1, b OP k2, a OP k3, ... }
+//
+// In streaming mode every instruction is compiled into a circuit of its own and
+// the circuits are cached by the text of the typed instruction; instructions
+// that differ only in signedness (or only in the width of the constant) must
+// not share a circuit.
+func genConstPairs(t *rapid.T) Case {
+	w := rapid.SampledFrom([]int{8, 8, 16, 7, 13, 24, 31, 32}).Draw(t, "cpwidth")
+	n := rapid.IntRange(2, 4).Draw(t, "cpterms")
+	ops := []string{"==", "==", "==", "!=", "!=", "<", ">", "<=", ">=", "/", "%", "+", "&"}
+	op := ops[rapid.IntRange(0, len(ops)-1).Draw(t, "cpop")]
+	R := "bool"
+	arith := op == "/" || op == "%" || op == "+" || op == "&"
+	var results, terms []string
+	consts := map[string][]*big.Int{}
+	for i := 0; i < n; i++ {
+		for _, v := range []string{"a", "b"} {
+			lim := w - 1
+			if lim > 30 {
+				lim = 30
+			}
+			k := rapid.IntRange(1, 1<<uint(lim)-1).Draw(t, "cpconst")
+			if rapid.Bool().Draw(t, "cpsmall") {
+				k = 1 + k%9
+			}
+			ks := fmt.Sprint(k)
+			if v == "a" && !arith && w <= 31 && rapid.IntRange(0, 2).Draw(t, "cpneg") == 0 {
+				ks = "-" + ks
+			}
+			kv, _ := new(big.Int).SetString(ks, 10)
+			consts[v] = append(consts[v], kv)
+			terms = append(terms, fmt.Sprintf("%s %s %s", v, op, ks))
+			if arith {
+				if v == "a" {
+					results = append(results, fmt.Sprintf("int%d", w))
+				} else {
+					results = append(results, fmt.Sprintf("uint%d", w))
+				}
+			} else {
+				results = append(results, R)
+			}
+		}
+	}
+	src := fmt.Sprintf("package main\n\nfunc main(a int%d, b uint%d) (%s) {\n\treturn %s\n}\n",
+		w, w, strings.Join(results, ", "), strings.Join(terms, ", "))
+	cs := Case{Src: src, Tmpl: "const-pairs", Seed: rapid.Uint64().Draw(t, "seed")}
+	mask := new(big.Int).Sub(new(big.Int).Lsh(big.NewInt(1), uint(w)), big.NewInt(1))
+	val := func(label string) string {
+		v := new(big.Int).SetUint64(rapid.Uint64().Draw(t, label))
+		ks := consts[label]
+		switch rapid.IntRange(0, 7).Draw(t, label+"class") {
+		case 0:
+			v = new(big.Int).Set(mask) // -1 / max
+		case 1:
+			v = new(big.Int).Lsh(big.NewInt(1), uint(w-1)) // min / top bit
+		case 2, 3, 4:
+			// one of the constants the variable meets
+			v = new(big.Int).Set(ks[rapid.IntRange(0, len(ks)-1).Draw(t, label+"const")])
+		case 5:
+			v = new(big.Int).Add(ks[rapid.IntRange(0, len(ks)-1).Draw(t, label+"const")],
+				big.NewInt(int64(rapid.IntRange(-1, 1).Draw(t, label+"delta"))))
+		}
+		return hexOf(v.And(v, mask))
+	}
+	cs.X = []string{val("a")}
+	cs.Y = []string{val("b")}
+	return cs
+}
+
 func genTemplate(t *rapid.T) Case {
-	switch rapid.IntRange(0, 7).Draw(t, "templatekind") {
+	switch rapid.IntRange(0, 9).Draw(t, "templatekind") {
 	case 0, 1:
 		return genNativeMath(t)
 	case 2, 3, 4:
 		return genLibTemplate(t)
+	case 5, 6, 7:
+		return genConstPairs(t)
 	}
 	name := rapid.SampledFrom(templateNames).Draw(t, "template")
 	cs := Case{Src: templates[name], Tmpl: name, Seed: rapid.Uint64().Draw(t, "seed")}
